@@ -326,7 +326,7 @@ class DirscanEngine:
                 viol.append({"prop": "C19", "oracle": "pair-equality", "detail": f"models {'equal' if same_model else 'differ (' + json.dumps(cfg.get('edit')) + ')'} but hashsum trees {'equal' if same_tree else 'differ'}", "shape": (cfg.get("edit") or {}).get("kind", "same")})
         sig = hashlib.sha256(json.dumps([sorted((p, e["t"], e.get("to"), e.get("len")) for p, e in mA.items()), cfg.get("edit")]).encode()).hexdigest()[:16]
         nontrivial = len(mA) >= 3 and any(e["t"] == "l" or "/" in p for p, e in mA.items())
-        return {"violations": viol, "faults": stats, "probes": probes, "steps": len(mA) + len(mB), "log_digest": hashlib.sha256(json.dumps([results], sort_keys=True, default=str).encode()).hexdigest()[:16], "sig": sig, "nontrivial": nontrivial}
+        return {"violations": viol, "faults": stats, "probes": probes, "steps": len(mA) + len(mB), "log_digest": hashlib.sha256(json.dumps([[r[0], r[1] if r[0] == "tree" else None] for r in results], sort_keys=True, default=str).encode()).hexdigest()[:16], "sig": sig, "nontrivial": nontrivial}
 
     @staticmethod
     def diff(a, b, pre=""):
